@@ -23,6 +23,7 @@ SRCS = {
     'defs': '@dec\ndef g(p, q=1):  # sig\n    """doc"""\n    r = p * q  # m\n    return r\n\n\nclass K(B):\n    v = g(1)  # cv\n    w: int = 2\n',
     'ifelse2': 'if a:  # h\n    b = 1  # cb\n    c = 2\nelse:\n    d = 3  # cd\n    e = 4\nfor i in z:\n    f = 5\n    g = 6\nelse:\n    h = 7\n    j = 8\nk = 9\n',
     'prims': 'from ..m import n as o\nasync def f(p, *, q=u"t"):\n    r = [x async for x in y if x]\n    return r.s(k=q)  # c\nglobal g\n',
+    'cmts': '# pre a\na = 1  # a\n# pre b\nb = 2  # b',
     'flow': 'for i in range(3):  # loop\n    if i:\n        continue  # c\n    t = (i,\n         i + 1)\nwhile t: t = t[1:]  # shrink\nwith a as b, c:\n    pass  # body\n',
 }
 OPS = ['none', 'cross_fields_after', 'cross_fields_into_body', 'cross_fields_foreign', 'cross_fields_body0_is_orelse0', 'expr_new', 'expr_foreign', 'stmt_delete', 'stmt_insert_new', 'stmt_swap_next', 'stmt_duplicate', 'rename', 'const_change', 'op_change', 'stmt_move_to_end',
@@ -282,6 +283,12 @@ def _mk(key, rounds, o1):
                 if op1 == 'cross_fields_body0_is_orelse0' and op2 == 'none':
                     # inside the touched block: the statement at body[1] was not touched and keeps its line incl. comment
                     blk = _stmts(tree)[kk1] if 0 <= kk1 < len(_stmts(tree)) else None
+                if not ({op1, op2} & {'stmt_duplicate', 'cross_fields_after', 'cross_fields_into_body', 'cross_fields_body0_is_orelse0', 'cross_fields_foreign', 'stmt_foreign_popped', 'expr_foreign'}):
+                    # no mutation here copies a statement: no comment of the marked source may appear more often than before
+                    cb, ca = pc.comments(src_before if src_before.endswith('\n') else src_before + '\n'), pc.comments(nsrc if nsrc.endswith('\n') else nsrc + '\n')
+                    if cb is not None and ca is not None:
+                        dup = sorted({c_ for c_ in ca if ca.count(c_) > cb.count(c_)})
+                        check(not dup, f'reconcile.comment_duplicated:{key}:{op1}+{op2}', (key, op1, kk1, op2, kk2, dup, nsrc))
                 for s in orig_tops:
                     if id(s) not in touched and any(s is b for b in tree.body):
                         check(orig_text[id(s)] in nsrc, 'reconcile.untouched_statement_text_changed', (key, op1, kk1, op2, kk2, orig_text[id(s)], nsrc))
@@ -300,5 +307,5 @@ for _k in SRCS:
             CELLS.append(Cell(f'P1.reconcile[{_k},rounds={_r},first={OPS[_o1]}]', _mk(_k, _r, _o1), 'P', FNR,
                               f'carrier {_k} ({len(SRCS[_k].splitlines())} lines); script: first mutation {OPS[_o1]} at node ordinal k1, second mutation (any of {len(OPS)} kinds) at k2; '
                               f'ordinals symbolic in -1..40 (finite); {_r} mark/reconcile round(s)',
-                              tier='quick' if ((_k, _r) == ('small', 1) and OPS[_o1] in ('none', 'expr_new', 'stmt_delete', 'stmt_swap_next', 'expr_foreign', 'rename', 'const_same_value_other_type', 'stmt_foreign_popped')) or ((_k, _r) == ('prims', 1) and OPS[_o1] in ('prim_change', 'none')) or ((_k, _r) == ('ifelse2', 1) and OPS[_o1].startswith('cross_fields')) else 'thorough',
+                              tier='quick' if ((_k, _r) == ('small', 1) and OPS[_o1] in ('none', 'expr_new', 'stmt_delete', 'stmt_swap_next', 'expr_foreign', 'rename', 'const_same_value_other_type', 'stmt_foreign_popped')) or ((_k, _r) == ('prims', 1) and OPS[_o1] in ('prim_change', 'none')) or ((_k, _r) == ('cmts', 1) and OPS[_o1] in ('stmt_insert_new', 'stmt_delete', 'stmt_swap_next')) or ((_k, _r) == ('ifelse2', 1) and OPS[_o1].startswith('cross_fields')) else 'thorough',
                               budget=900, per_path=90, out='mutation histories > 2 ops per round; programs outside the carriers', reset=pc.reset_globals))
